@@ -240,6 +240,7 @@ func init() {
 			c.ScatterIndexDiscipline("C20")
 			c.LockReleased("C20")
 			c.ConstIndexGuarded("C20")
+			c.AlignedLists("C20")
 			c.ForkJoinRules("C03") // the fork helper returns (and closes its channels) only after every worker reported: a send on a closed channel kills the process
 			c.ExplicitPanics("C20")
 			c.ResultBeforeErrorCheck("C20")
